@@ -11,6 +11,7 @@ import SkNet.Lemmas.TopologyCliquesTop
 import SkNet.Lemmas.TopologyCore
 import SkNet.Lemmas.TopologyCoreSpec
 import SkNet.Lemmas.TopologyFinset
+import SkNet.Lemmas.TopologyParFor
 import Mathlib.Tactic.Ring
 import Mathlib.Tactic.FieldSimp
 import Mathlib.Algebra.Order.Field.Rat
@@ -101,6 +102,38 @@ theorem reduction_any_two_schedules (f : Nat → Nat) (n init : Nat) (s s' : Sch
 /-- a schedule with three threads, iterations out of order, combined as `(t2 + t0) + t1` -/
 example : Schedule.Valid ⟨[[4, 0], [1, 3, 5], [2]], .node (.node (.leaf 2) (.leaf 0)) (.leaf 1)⟩ 6 :=
   Schedule.valid_of_validB _ _ (by decide)
+
+/-- ★ the schedule quantifier at the level of atomic loads and stores: each thread owns a private copy of the
+    reduction variable, an iteration is a load of that copy followed by a store of the loaded value plus the
+    iteration's contribution (`a += x` is a load and a store, not an atomic update). The loop is race-free
+    (`ParFor.raceFree_threadProg`), and after *every interleaving* of these events in which all threads finish,
+    the private copy of thread `t` holds the sum of the contributions of the iterations given to `t` -/
+theorem parallel_interleaving_free (f : Nat → Nat) (parts : List (List Nat)) (s : List Nat)
+    (hdone : ∀ t, (ParFor.run (ParFor.threadProg f parts) ParFor.c0 s).pc t = (ParFor.threadProg f parts t).length)
+    (t : Nat) :
+    (ParFor.run (ParFor.threadProg f parts) ParFor.c0 s).mem t = partialSum f (parts.getD t []) :=
+  ParFor.interleaving_free f parts s hdone t
+
+/-- …and combining the private copies in any tree gives `parReduce`, i.e. (by `reduction_schedule_free`) the value
+    of the sequential loop, for every valid schedule and every interleaving -/
+theorem parallel_region_value (f : Nat → Nat) (n init : Nat) (sch : Schedule) (hv : sch.Valid n) (s : List Nat)
+    (hdone : ∀ t, (ParFor.run (ParFor.threadProg f sch.parts) ParFor.c0 s).pc t =
+      (ParFor.threadProg f sch.parts t).length) :
+    init + sch.comb.eval (fun t => (ParFor.run (ParFor.threadProg f sch.parts) ParFor.c0 s).mem t) =
+      (List.range n).foldl (fun acc i => acc + f i) init := by
+  rw [ParFor.region_value f sch init s hdone, reduction_schedule_free f n init sch hv]
+
+/-- two threads with iterations `[2, 0]` and `[1]`, events interleaved as t0 t1 t0 t1 t0 t0: a complete interleaving -/
+example : ∀ t, (ParFor.run (ParFor.threadProg (fun i => i + 1) [[2, 0], [1]]) ParFor.c0 [0, 1, 0, 1, 0, 0]).pc t =
+    (ParFor.threadProg (fun i => i + 1) [[2, 0], [1]] t).length := by
+  intro t
+  match t with
+  | 0 => decide
+  | 1 => decide
+  | t+2 =>
+    have h1 : ParFor.threadProg (fun i => i + 1) [[2, 0], [1]] (t+2) = [] := by simp [ParFor.threadProg]
+    rw [h1]
+    simp [ParFor.run, ParFor.step, ParFor.threadProg, ParFor.iterEvents, ParFor.c0, ParFor.upd, ParFor.execEv]
 
 /-- OpenMP's `schedule(static)` — the schedule the model runs for the `run` lines of the harness — is a valid
     schedule for every number of iterations and every number of threads (so the hypotheses of the theorems of this
